@@ -246,10 +246,12 @@ PROPS = {
         level_text="Production runFrostParallel on (a) a scheduling transport that lets one node at a time through the round barriers in a drawn order and (b) the production newFrostP2P + bcast transport over an in-memory libp2p stand-in with drawn frame order and duplicates; "
                    "pedersen.RunDKG over the same stand-in on virtual time. Oracle: same group key and same n public shares everywhere, secret share i matches public share i, every (or 40 drawn) t-subset of public shares reconstructs the key and of secret shares signs for the group key, t-1 shares do not, "
                    "aggLockHashSig/aggDepositData/aggValidatorRegistrations accept the honest partials and produce signatures valid under the group keys, and reject a forged partial.",
-        level_note="Runs as an overlay test inside package dkg (no file written to /repo). crypto/rand inside FROST/kyber cannot be seeded, so replay repeats configuration and schedule, not key material. The sync protocol, exchanger and disk steps of dkg.Run are not part of the harness; partial signatures are exchanged by the harness faithfully.",
+        level_note="Runs as an overlay test inside package dkg (no file written to /repo). crypto/rand inside FROST/kyber cannot be seeded, so replay repeats configuration and schedule, not key material. In the scheduled variants partial signatures are exchanged by the harness faithfully; the whole command (dkg.Run on every member: definition, sync protocol, exchanger, ceremony, aggregation, lock / keystore files) runs in TestC11FullRun over loopback TCP on wall-clock time, where a ceremony that ends with an error is skipped (the property speaks of successful ceremonies) and a majority of failed ceremonies makes the run inconclusive.",
         runs={
-            "quick": [dict(test="TestC11FrostSchedules", checks=40, shards=4, env={"VERIF_C11_MAXN": "8"}), dict(test="TestC11FrostP2P", checks=10, shards=4), dict(test="TestC11Pedersen", bin="pedersen", checks=25, shards=2)],
-            "thorough": [dict(test="TestC11FrostSchedules", checks=400, shards=10, timeout=3000), dict(test="TestC11FrostP2P", checks=120, shards=6, timeout=3000), dict(test="TestC11Pedersen", bin="pedersen", checks=400, shards=6, timeout=3000, env={"VERIF_C11_MAXN": "8"})],
+            "quick": [dict(test="TestC11FrostSchedules", checks=40, shards=4, env={"VERIF_C11_MAXN": "8"}), dict(test="TestC11FrostP2P", checks=10, shards=4), dict(test="TestC11Pedersen", bin="pedersen", checks=25, shards=2),
+                      dict(test="TestC11FullRun", bin="pedersen", checks=2, shards=3, shrinktime="1s", env={"VERIF_C11_FULL_MAXN": "4"})],
+            "thorough": [dict(test="TestC11FrostSchedules", checks=400, shards=10, timeout=3000), dict(test="TestC11FrostP2P", checks=120, shards=6, timeout=3000), dict(test="TestC11Pedersen", bin="pedersen", checks=400, shards=6, timeout=3000, env={"VERIF_C11_MAXN": "8"}),
+                         dict(test="TestC11FullRun", bin="pedersen", checks=12, shards=8, shrinktime="1s", timeout=3000, env={"VERIF_C11_FULL_MAXN": "6"})],
         },
     ),
 }
